@@ -353,3 +353,9 @@ def run(ctx):
     ctx.rule('C10.1-identifier-constructors', 'for pids, ports and references the constructor that attaches the raw node-local bytes stores the logical fields exactly as the plain constructor does', floor=3)
     for ty_ in ('ExternalPid', 'ExternalPort', 'ExternalReference'):
         _sib(ctx, P, 'C10.1-identifier-constructors', 'erltf::types::' + ty_, ['erltf::types::%s::new' % ty_, 'erltf::types::%s::with_local_ext_bytes' % ty_], {'local_ext_bytes'})
+
+    # the numbers of an identifier are opaque: every parser hands them on unchanged
+    from ..etf import check_identifier_fields_verbatim as _verb10
+    ctx.rule('C10.1-identifier-fields-verbatim', 'every pid / port / reference parser passes the integers it read to the constructor unchanged (widening only): masking "reserved" bits or any other arithmetic '
+             'makes the identifier written back differ from the one received', floor=10)
+    _verb10(ctx, 'C10.1-identifier-fields-verbatim')
